@@ -58,6 +58,7 @@ structure R where
   joined : Bool := false
   wakes : Nat := 0
   pops : Nat := 0
+  fifoQ : Bool := true                 -- DefaultTaskQueue: Pop returns the oldest task (checked); engine.TaskQueue: any
   earlyBc : Nat := 0                   -- unlocked broadcasts already performed whose record is still to come
 
 /-- errors + a budget of alternatives that survives failed branches -/
@@ -108,9 +109,19 @@ def bcastAll (r : R) : M R := do
   let r ← ev .bcast r
   pure { r with fifo := [] }
 
-/-- one record without choice points; `none` for the records that have alternatives -/
-def stepRec (c : Rec) (r : R) : M R := do
-  match workerIdx c.thread with
+def callerCodes : List String :=
+  ["ap", "au", "as", "ad", "SC", "SR", "sr", "su", "sd", "sb", "sp", "WC", "ws", "WR", "JC", "jk", "js", "JR", "bc"]
+
+/-- one record without choice points -/
+def stepRec (c : Rec) (r0 : R) : M R := do
+  -- a task may call the pool from inside Run (AddTask through a rule action): caller records of a worker thread
+  let wi := if callerCodes.contains c.code then none else workerIdx c.thread
+  -- code without the re-check of workerKill on the exit-when-drained path (no `dr` record): the worker
+  -- leaves unconditionally; the model decides by workerKill — if it stays, the next record is refused
+  let r ← match wi with
+    | some i => if pcOf r0 i == .drained && c.code != "dr" && c.code != "em" then ev (.drainExit i) r0 else pure r0
+    | none => pure r0
+  match wi with
   | some i =>
     -- `st`/`hd` of a fresh worker may be recorded before the `su` of the SetWorkerCount creating it
     if i ≥ r.s.pcs.length && (c.code == "st" || c.code == "hd") then return r
@@ -132,11 +143,18 @@ def stepRec (c : Rec) (r : R) : M R := do
       let t ← argTask c.args 0
       let q ← argNat c.args 1
       let r ← match t with
-        | some t => ev (.pop i t) { r with pops := r.pops + 1 }
+        | some t => do
+          expect (!r.fifoQ || r.s.queue.head? == some t)
+            s!"pp: task {t} popped, the oldest queued task is {r.s.queue.head?}"
+          ev (.pop i t) { r with pops := r.pops + 1 }
         | none => ev (.popNone i) r
       expect (q == (r.s.queue.length : Int)) s!"pp: queue size observed {q}, model {r.s.queue.length}"
       pure r
     | "em" => pure r
+    | "dr" =>
+      let k ← argNat c.args 0
+      expect (k == r.s.kill) s!"dr: workerKill observed {k}, model {r.s.kill}"
+      ev (.drainExit i) r
     | "ir" => ev (.regIdle i) r
     | "tb" =>
       match ← argTask c.args 0 with
@@ -175,14 +193,16 @@ def stepRec (c : Rec) (r : R) : M R := do
       pure r
     | "au" => pure r
     | "ad" => pure r
-    | "SC" => do let k ← argNat c.args 0; pure { r with lastSet := some k, joined := false }
+    | "SC" => pure { r with joined := false }
     | "SR" => pure r
     | "sr" =>
       let w ← argNat c.args 0
       let k ← argNat c.args 1
       -- repaired SetWorkerCount: len(workerMap) - workerExiting, read in the deciding critical section
       expect (w == (r.s.live : Int)) s!"sr: workers not told to exit observed {w}, model {r.s.live} (len(workerMap) = {r.s.workerCount})"
-      pure { r with swcRead := setAssoc r.swcRead c.thread (w, if k < 0 then 0 else k) }
+      -- the deciding critical section: this call's count is the target from now on
+      let k := if k < 0 then 0 else k
+      pure { r with swcRead := setAssoc r.swcRead c.thread (w, k), lastSet := some k }
     | "su" =>
       let n ← argNat c.args 0
       match r.swcRead.lookup c.thread with
@@ -272,7 +292,7 @@ def replay : List Rec → Nat → R → M R
   | c :: rest, k, r =>
     let wrap (e : M R) : M R :=
       tryCatch e fun m => throw (if m.startsWith "@" then m else s!"@{k} {c.thread}.{c.code}: {m}")
-    if c.code == "as" && (workerIdx c.thread).isNone then
+    if c.code == "as" then
       wrap (do
         let alts ← signalAlts r
         firstOk (alts.map fun f => fun u => do let r' ← f u; replay rest (k + 1) r'))
@@ -320,7 +340,7 @@ def runCase (line : String) : String :=
     match (trace.splitOn ",").mapM parseRec with
     | none => "bad-trace"
     | some recs =>
-      match ((replay recs 0 { s := init }).run.run 3000).1 with
+      match ((replay recs 0 { s := init, fifoQ := !_payload.startsWith "P " }).run.run 3000).1 with
       | .ok r =>
         monitors r ++ s!"\tvalid=1\tevents={recs.length}" ++ (if r.wakes > 0 && r.pops > 0 then "\tnt=1" else "")
       | .error m => "INVALID " ++ m
